@@ -38,6 +38,12 @@ CLAIMS = {
         note="A send()/start_response call that raises is modelled as not having delivered its event. more_body must be a decidable constant on each path (otherwise UNDECIDED). Inlining bound 5.",
         ref="DESIGN.md section 3, C05",
     ),
+    "C11": dict(
+        technique="static extraction of the wrapper's guarded transition system from the AST (all paths, send/receive inlined) + exhaustive exploration of its finite product with the ASGI application-side grammar and the server script grammar",
+        text="The two state machines of the WebSocket wrapper are recovered from the source (every path of every public method with its guards over client_state / application_state / message types, its ordered raw-channel uses and state stores, and its exit) and the finite product with the ASGI WebSocket application grammar (accept|close first, send only between, nothing after close) and the server script grammar (connect, frames, disconnect) is explored exhaustively over all 11 operations in all reachable states: nothing the grammar rejects is ever forwarded, a rejected call forwards nothing, no raw receive after the disconnect was delivered, states only move forward and mirror what was actually sent/received, close is idempotent, each receive returns the event of its own single raw receive. Also: only send()/receive() touch the raw channels, websocket_session hands out only the wrapper, the denial response closes exactly once / maps exactly the two HTTP events.",
+        note="The model is extracted from /repo on every run, not hand-written. Guards are asserts (python -O removes them; outside the quantifier). Server scripts are well-formed (the quantifier's). traces_validated_against_impl is 0 by construction: nothing is executed.",
+        ref="DESIGN.md section 3, C11",
+    ),
 }
 
 NOT_APPLICABLE = {
